@@ -1,50 +1,76 @@
 ------------------------ MODULE InvoiceRegistryGen ------------------------
 (* Behaviour generator: InvoiceRegistry + the history of the events taken,  *)
 (* dumped as one NDJSON file per simulated behaviour (tlc -simulate).  The   *)
-(* kinds of the two invoices are drawn per behaviour; HTLC parameters are    *)
-(* drawn with RandomElement (a few draws per state keep the fan-out small):  *)
+(* kinds of the two invoices and the circuit-key pattern are drawn per       *)
+(* behaviour; HTLC parameters are drawn with RandomElement (a few draws per  *)
+(* state keep the fan-out small):                                            *)
 (* mostly from the parameters that can be accepted (some of these with an    *)
 (* expiry already below the current height), otherwise from the whole        *)
 (* (bound through a singleton set so that one draw is used consistently);   *)
-(* product (wrong/absent/foreign address, low or mismatching totals, expiry  *)
-(* one block short, bad keysend preimage, bad or foreign AMP shares).        *)
+(* product (wrong/absent/foreign address or path id, low or mismatching      *)
+(* totals, expiry one block short, bad keysend preimage, bad or foreign AMP  *)
+(* shares, the interceptor client's CancelSet).                              *)
+(*                                                                           *)
+(* Focus = "all":      all kinds of invoices, all payload classes.           *)
+(* Focus = "holdsets": at least one hold invoice; shards (MPP record or      *)
+(*   blinded path) that leave their set incomplete are frequent, and so are  *)
+(*   the events that cancel them before it completes (Tick = MPP timeout,    *)
+(*   CancelSet), followed by retries, SettleHodlInvoice and CancelInvoice.   *)
+(*   Only the weights differ: every step is an InvoiceRegistry action.       *)
 EXTENDS InvoiceRegistry, Json
-CONSTANTS MaxLen
+CONSTANTS MaxLen, Focus
 \* the pairs of invoice kinds behaviours are generated for (all seven kinds occur in both slots)
-KindPool == {<<"regular", "hold">>, <<"regular", "regular">>, <<"noaddr", "holdna">>, <<"zeroamt", "regular">>,
+KindPool == IF Focus = "holdsets"
+            THEN {<<"hold", "hold">>, <<"hold", "regular">>, <<"holdna", "hold">>, <<"hold", "holdna">>,
+                  <<"regular", "hold">>, <<"holdna", "noaddr">>, <<"zeroamt", "hold">>}
+            ELSE
+            {<<"regular", "hold">>, <<"regular", "regular">>, <<"noaddr", "holdna">>, <<"zeroamt", "regular">>,
              <<"amp", "regular">>, <<"amp", "amp">>, <<"keysend", "noaddr">>, <<"hold", "zeroamt">>,
              <<"holdna", "amp">>, <<"keysend", "hold">>, <<"noaddr", "noaddr">>, <<"amp", "keysend">>,
              <<"zeroamt", "holdna">>, <<"hold", "keysend">>, <<"regular", "amp">>, <<"holdna", "noaddr">>}
 VARIABLE hist
 
 Ev(a, c, k, p) == [a |-> a, c |-> c, k |-> k, pl |-> p.pl, h |-> p.h, ad |-> p.ad, amt |-> p.amt, tot |-> p.tot,
-                   exp |-> p.exp, set |-> p.set, good |-> IF p.good THEN 1 ELSE 0, ht |-> height,
-                   k1 |-> kinds[1], k2 |-> kinds[2]]
-NoP == [pl |-> "none", h |-> 0, ad |-> 0, amt |-> 0, tot |-> 0, exp |-> 0, set |-> "none", good |-> TRUE]
+                   exp |-> p.exp, set |-> p.set, good |-> IF p.good THEN 1 ELSE 0, cs |-> IF p.cs THEN 1 ELSE 0,
+                   ht |-> height, k1 |-> kinds[1], k2 |-> kinds[2], kp |-> kp]
+NoP == [pl |-> "none", h |-> 0, ad |-> 0, amt |-> 0, tot |-> 0, exp |-> 0, set |-> "none", good |-> TRUE, cs |-> FALSE]
 Rec(e) == hist' = Append(hist, e)
 
 \* parameters that pass the static checks of the invoice they aim at (built directly, not filtered out of Params)
 OkExp(k) == {height + Need(k), height + Need(k) + 1}
 Likely(c) ==
-     UNION {{[c |-> c, pl |-> "mpp", h |-> h, ad |-> h, amt |-> a, tot |-> t, exp |-> e, set |-> "none", good |-> TRUE]
-               : a \in Amts, t \in {x \in Tots : x >= V}, e \in OkExp(h)}
+     UNION {{P(c, pl, h, h, a, t, e, "none", TRUE)
+               : pl \in {"mpp", "blinded"}, a \in Amts, t \in {x \in Tots : x >= V}, e \in OkExp(h)}
             : h \in {x \in Inv : Kind(x) \notin {"amp", "keysend"} /\ inv[x].st = "open"}}
-  \cup UNION {{[c |-> c, pl |-> "amp", h |-> 0, ad |-> sa[2], amt |-> a, tot |-> t, exp |-> height + Need(sa[2]), set |-> sa[1], good |-> g]
+  \cup UNION {{P(c, "amp", 0, sa[2], a, t, height + Need(sa[2]), sa[1], g)
                : a \in Amts, t \in {x \in Tots : x >= V}, g \in {x \in BOOLEAN : x => c \in Members(sa[1])}}
             : sa \in Sets \X {x \in Inv : Kind(x) = "amp" /\ inv[x].st = "open"}}
-  \cup UNION {{[c |-> c, pl |-> "legacy", h |-> h, ad |-> 0, amt |-> a, tot |-> 0, exp |-> e, set |-> "none", good |-> TRUE]
-               : a \in Amts, e \in OkExp(h)}
+  \cup UNION {{P(c, "legacy", h, 0, a, t, e, "none", TRUE) : a \in Amts, t \in {0, V}, e \in OkExp(h)}
             : h \in {x \in Inv : ~NeedAddr(x) /\ Kind(x) # "amp" /\ inv[x].ex /\ inv[x].st # "canceled"}}
-  \cup UNION {{[c |-> c, pl |-> "keysend", h |-> h, ad |-> 0, amt |-> a, tot |-> 0, exp |-> e, set |-> "none", good |-> TRUE]
-               : a \in Amts, e \in OkExp(h)}
+  \cup UNION {{P(c, "keysend", h, 0, a, 0, e, "none", TRUE) : a \in Amts, e \in OkExp(h)}
             : h \in {x \in Inv : Kind(x) = "keysend"}}
-\* 60% acceptable, 15% acceptable but for an expiry that already lies below the current height, 25% anything
-Draw(c) == LET r == RandomElement(1..20) IN
-           IF Likely(c) # {} /\ r <= 12 THEN RandomElement(Likely(c))
-           ELSE IF Likely(c) # {} /\ r <= 15 THEN [RandomElement(Likely(c)) EXCEPT !.exp = RandomElement(Expired)]
+\* 55% acceptable, 15% acceptable but for an expiry that already lies below the current height,
+\* 8% the interceptor client cancels the set, 22% anything
+Draw(c) == LET r == RandomElement(1..40) IN
+           IF Likely(c) # {} /\ r <= 22 THEN RandomElement(Likely(c))
+           ELSE IF Likely(c) # {} /\ r <= 28 THEN [RandomElement(Likely(c)) EXCEPT !.exp = RandomElement(Expired)]
+           ELSE IF r <= 31 THEN RandomElement(CsParams(c))
            ELSE RandomElement(Params(c))
 
+\* Focus = "holdsets": shards of the set of an open invoice (hold invoices preferred)
+Shards(c) ==
+  LET open == {x \in Inv : Kind(x) \notin {"amp", "keysend"} /\ inv[x].st = "open"}
+      hs   == IF \E x \in open : IsHodl(x) THEN {x \in open : IsHodl(x)} ELSE open
+  IN UNION {{P(c, pl, h, h, a, t, e, "none", TRUE)
+               : pl \in {"mpp", "blinded"}, a \in Amts, t \in {V, V + 1}, e \in OkExp(h)} : h \in hs}
+\* 70% a shard, 10% the interceptor client cancels the set, 20% as in the general mix
+DrawH(c) == LET r == RandomElement(1..20) IN
+            IF Shards(c) # {} /\ r <= 14 THEN RandomElement(Shards(c))
+            ELSE IF r <= 16 THEN RandomElement(CsParams(c))
+            ELSE Draw(c)
+
 GInit == /\ kinds \in KindPool
+         /\ kp \in KeyPatterns
          /\ inv = [k \in Inv |-> InitInv(k)]
          /\ htlc = [c \in C |-> NoHtlc]
          /\ sub = {} /\ timer = {}
@@ -54,13 +80,26 @@ GInit == /\ kinds \in KindPool
          /\ hist = <<>>
 \* weights: simulation picks uniformly among the successors that exist, a coin makes an event rarer
 Coin(n) == RandomElement(1..n) = 1
-GNext == /\ Len(hist) < MaxLen
-         /\ \/ \E c \in C : \E i \in 1..2 : \E p \in {Draw(c)} : Notify(p) /\ Rec(Ev("Notify", c, 0, p))
+Free == {c \in C : htlc[c] = NoHtlc}
+GNextAll ==
+            \/ \E c \in C : \E i \in 1..2 : \E p \in {Draw(c)} : Notify(p) /\ Rec(Ev("Notify", c, 0, p))
             \/ \E c \in C : Coin(2) /\ Replay(c) /\ Rec(Ev("Replay", c, 0, NoP))
             \/ \E k \in Inv : (inv[k].st = "accepted" \/ Coin(8)) /\ Settle(k) /\ Rec(Ev("Settle", 0, k, NoP))
             \/ \E k \in Inv : Coin(6) /\ Cancel(k) /\ Rec(Ev("Cancel", 0, k, NoP))
             \/ Coin(2) /\ Tick /\ Rec(Ev("Tick", 0, 0, NoP))
             \/ Coin(3) /\ Block /\ Rec(Ev("Block", 0, 0, NoP))
+\* one new HTLC (two draws) on ONE free circuit per step, so that timeouts, settles and cancels are not
+\* crowded out; an accepted invoice is settled or canceled soon
+GNextHold ==
+            \/ Free # {} /\ \E c \in {RandomElement(Free)} : \E i \in 1..2 : \E p \in {DrawH(c)} :
+                              Notify(p) /\ Rec(Ev("Notify", c, 0, p))
+            \/ \E c \in {RandomElement(C)} : Coin(2) /\ Replay(c) /\ Rec(Ev("Replay", c, 0, NoP))
+            \/ \E k \in Inv : (inv[k].st = "accepted" \/ Coin(10)) /\ Settle(k) /\ Rec(Ev("Settle", 0, k, NoP))
+            \/ \E k \in Inv : ((inv[k].st = "accepted" /\ Coin(3)) \/ Coin(12)) /\ Cancel(k) /\ Rec(Ev("Cancel", 0, k, NoP))
+            \/ (timer # {} \/ Coin(6)) /\ Tick /\ Rec(Ev("Tick", 0, 0, NoP))
+            \/ Coin(4) /\ Block /\ Rec(Ev("Block", 0, 0, NoP))
+GNext == /\ Len(hist) < MaxLen
+         /\ IF Focus = "holdsets" THEN GNextHold ELSE GNextAll
 GSpec == GInit /\ [][GNext]_<<vars, hist>>
 
 Dump == (Len(hist) = MaxLen) =>
